@@ -73,12 +73,12 @@ Definition tok_answer (ts : list N) : option (ianswer * list N) :=
   | _ => None
   end.
 
-Record ialloc := { i_via : N; i_lost : bool; i_locked : bool; i_op : op; i_tlo : N; i_thi : N; i_ans : ianswer; i_opt51 : option N; i_rows : list row }.
+Record ialloc := { i_via : N; i_rq : N; i_lost : bool; i_locked : bool; i_op : op; i_tlo : N; i_thi : N; i_ans : ianswer; i_opt51 : option N; i_rows : list row }.
 Inductive ievent := IAlloc (a : ialloc) | ITick (d : N) | IRestart (rows : list row) | IKill (rows : list row).
 
 Definition tok_event (ts : list N) : option (ievent * list N) :=
   match ts with
-  | kind :: via :: _cid :: _rq :: _alt :: r =>
+  | kind :: via :: _cid :: rq :: _alt :: r =>
       if negb ((kind =? 1) || (kind =? 5) || (kind =? 6)) then
         match ts with
         | 2 :: d :: r => Some (ITick d, r)
@@ -99,7 +99,7 @@ Definition tok_event (ts : list N) : option (ievent * list N) :=
               | Some (o51, r5) =>
                 match tok_rows r5 with
                 | Some (rows, r6) =>
-                    Some (IAlloc {| i_via := via; i_lost := kind =? 5; i_locked := kind =? 6;
+                    Some (IAlloc {| i_via := via; i_rq := rq; i_lost := kind =? 5; i_locked := kind =? 6;
                                     i_op := {| o_client := c; o_req := req; o_pool := pool; o_min := tmin; o_max := tmax |};
                                     i_tlo := tlo; i_thi := thi; i_ans := ans; i_opt51 := o51; i_rows := rows |}, r6)
                 | None => None
@@ -301,6 +301,12 @@ Fixpoint fold_events (which : N) (s : fstate) (es : list ievent) : list N :=
       else
       let p := pred_of which s a in
       if negb (p =? 0) then v_viol p
+      else
+      (* C18: a REQUEST that names this server (option 54 = the receiving address) is for this server
+         even when the in-memory set of identifiers is empty, as it is right after a restart: it
+         must not be dropped as "for another server" (error answer 3 without a locked store) *)
+      if (which =? 18) && (128 <=? i_rq a) && negb (i_locked a) &&
+         (match i_ans a with IErr 3 => true | _ => false end) then v_viol 5
       else
       if i_locked a && (match i_ans a with IErr 3 => true | _ => false end) && rows_same (f_prev s) (i_rows a)
       then (* the write could not be made (another connection holds the lock): an error, nothing stored *)
